@@ -99,7 +99,18 @@ type c01presp struct {
 
 // c01checkResp applies the integrity / pairing oracle to one response for resource res; returns the version served.
 func c01checkResp(r *core.Recorder, cs map[string]any, res int, resp *rig.Resp, kind string) (int, string) {
-	if resp.Err != nil || resp.Aborted {
+	if resp.Aborted {
+		return -1, ""
+	}
+	if resp.Err != nil {
+		// the head arrived and announced a 200 / 206 built from the store, but the transfer ended before the
+		// announced length was delivered (or was followed by bytes that do not belong to it): a truncated body.
+		// Relayed answers (X-Cache MISS) are not "built from the store" and are C09's business.
+		fromStore := resp.Status == 206 || resp.Get("X-Cache") == "HIT" || resp.Get("X-Cache") == "REVALIDATED"
+		if (resp.Status == 200 || resp.Status == 206) && resp.HeaderAt != 0 && fromStore && strings.Contains(resp.Err.Error(), "read body") && !strings.Contains(resp.Err.Error(), "timeout") {
+			r.Violation("C01", fmt.Sprintf("C01:proxy:body-cut-short:%d", resp.Status), fmt.Sprintf("%d from the store announced Content-Length %s / Content-Range %q, the transfer ended after %d body bytes: %v", resp.Status, resp.Get("Content-Length"), resp.Get("Content-Range"), len(resp.Body), resp.Err), cs,
+				map[string]any{"status": resp.Status, "header": resp.Header, "body_len": len(resp.Body), "request_kind": kind})
+		}
 		return -1, ""
 	}
 	viol := func(sig, what string) {
